@@ -29,7 +29,7 @@ def run(tier):
             cs = os.path.join(sc, "sc.%s.cases.ndjson" % cfg)
             with open(cases) as f, open(cs, "w") as o:
                 for i, line in enumerate(f):
-                    if i % 5 == vlib.seed() % 5: o.write(line)
+                    if vlib.pick_hash(i, 5, vlib.seed()): o.write(line)
         out = os.path.join(sc, "sc.%s.trace.ndjson" % cfg)
         run.drive(CURVE, cfg, ["replay", cs, out]); traces.append(out)
     nrand = 100 if tier == "quick" else 2000
